@@ -145,6 +145,16 @@ func renderDoctype(node *html.Node) string {
 	return sb.String()
 }
 
+// insidePre reports whether the node being serialised has a <pre> ancestor.
+func insidePre(ctx VueContext) bool {
+	for _, tag := range ctx.TagStack {
+		if tag == "pre" {
+			return true
+		}
+	}
+	return false
+}
+
 func renderNode(w io.Writer, node *html.Node, indent int) error {
 	ctx := VueContext{}
 	return renderNodeWithContext(ctx, w, node, indent)
@@ -157,10 +167,16 @@ func renderNodeWithContext(ctx VueContext, w io.Writer, node *html.Node, indent 
 		_, _ = w.Write([]byte(renderDoctype(node)))
 
 	case html.TextNode:
-		if strings.TrimSpace(node.Data) == "" {
+		// Inside <pre> whitespace is content: text is written as it is, without
+		// indentation, and whitespace-only runs are kept.
+		inPre := insidePre(ctx)
+		if !inPre && strings.TrimSpace(node.Data) == "" {
 			return nil
 		}
 		spaces := getIndent(indent)
+		if inPre {
+			spaces = ""
+		}
 		parentTag := ctx.CurrentTag()
 		// Skip HTML escaping inside script and style tags
 		if parentTag == "script" || parentTag == "style" {
@@ -181,6 +197,13 @@ func renderNodeWithContext(ctx VueContext, w io.Writer, node *html.Node, indent 
 
 		spaces := getIndent(indent)
 		tagName := node.Data
+
+		// Inside <pre> no indentation or line breaks are added around elements;
+		// the <pre> element itself keeps its children on the same line.
+		nl := "\n"
+		if insidePre(ctx) {
+			spaces, nl = "", ""
+		}
 
 		// Check if this element has evaluated v-html or v-text content (stored in internal attributes)
 		var vhtmlContent string
@@ -208,7 +231,7 @@ func renderNodeWithContext(ctx VueContext, w io.Writer, node *html.Node, indent 
 			} else {
 				_, _ = w.Write([]byte(spaces + "<" + tagName + renderAttrs(node.Attr) + ">"))
 				_, _ = w.Write([]byte(content))
-				_, _ = w.Write([]byte("</" + tagName + ">\n"))
+				_, _ = w.Write([]byte("</" + tagName + ">" + nl))
 			}
 			return nil
 		}
@@ -251,7 +274,7 @@ func renderNodeWithContext(ctx VueContext, w io.Writer, node *html.Node, indent 
 
 		// compact single-entry text nodes
 		if childCount == 0 {
-			_, _ = w.Write([]byte(spaces + "<" + tagName + renderAttrs(node.Attr) + "></" + tagName + ">\n"))
+			_, _ = w.Write([]byte(spaces + "<" + tagName + renderAttrs(node.Attr) + "></" + tagName + ">" + nl))
 		} else if childCount == 1 && firstChild.Type == html.TextNode {
 			_, _ = w.Write([]byte(spaces + "<" + tagName + renderAttrs(node.Attr) + ">"))
 			// Skip HTML escaping inside script and style tags
@@ -262,9 +285,13 @@ func renderNodeWithContext(ctx VueContext, w io.Writer, node *html.Node, indent 
 			} else {
 				_, _ = w.Write([]byte(firstChild.Data))
 			}
-			_, _ = w.Write([]byte("</" + tagName + ">\n"))
+			_, _ = w.Write([]byte("</" + tagName + ">" + nl))
 		} else {
-			_, _ = w.Write([]byte(spaces + "<" + tagName + renderAttrs(node.Attr) + ">\n"))
+			openNL, closeIndent := "\n", spaces
+			if tagName == "pre" || nl == "" {
+				openNL, closeIndent = "", ""
+			}
+			_, _ = w.Write([]byte(spaces + "<" + tagName + renderAttrs(node.Attr) + ">" + openNL))
 			ctx.PushTag(tagName)
 			childIndent := indent + 2
 			for c := firstChild; c != nil; c = c.NextSibling {
@@ -273,7 +300,7 @@ func renderNodeWithContext(ctx VueContext, w io.Writer, node *html.Node, indent 
 				}
 			}
 			ctx.PopTag()
-			_, _ = w.Write([]byte(spaces + "</" + tagName + ">\n"))
+			_, _ = w.Write([]byte(closeIndent + "</" + tagName + ">" + nl))
 		}
 	}
 
